@@ -62,7 +62,7 @@ pub open spec fn allowed_kind(c: ZmtpEngineConfig, k: MechKind) -> bool {
 #[verifier::external_body]
 pub fn negotiate_security_mechanism(is_server: bool, local_config: &ZmtpEngineConfig, peer_greeting: &ZmtpGreeting, h: usize)
   -> (r: Result<Box<dyn Mechanism>, ZmqError>)
-  ensures r matches Ok(m) ==> allowed_kind(*local_config, m.kind())
+  ensures r matches Ok(m) ==> allowed_kind(*local_config, m.kind()) && m.role_server() == is_server
 { unimplemented!() }
 
 // number of HandshakeComplete / DeliverMessage actions: the outputs C06 forbids before authentication
@@ -86,7 +86,10 @@ impl ZmtpEngine {
   pub open spec fn new_frames(&self, before: Seq<Msg>) -> Seq<Msg> { self.framer.read_log().skip(before.len() as int) }
 
   // C06: the framer in use was produced by a COMPLETED mechanism that the local configuration enables
-  pub open spec fn framer_auth(&self) -> bool { self.framer.origin_complete() && allowed_kind(*self.config, self.framer.origin_kind()) }
+  // ... and that played the side of the security handshake that matches the transport role: a listener CHECKS its peers (a mechanism
+  // in the client role completes on the peer's word alone, so a listener running one has authenticated nobody); NULL has no roles
+  pub open spec fn role_ok(&self, kind: MechKind, role_server: bool) -> bool { kind != MechKind::Null ==> role_server == self.is_server }
+  pub open spec fn framer_auth(&self) -> bool { self.framer.origin_complete() && allowed_kind(*self.config, self.framer.origin_kind()) && self.role_ok(self.framer.origin_kind(), self.framer.origin_role_server()) }
   pub open spec fn auth_ok(&self) -> bool {
     (self.version == Some(ZmtpVersion::V3) && self.framer_auth()) || (self.version == Some(ZmtpVersion::V2) && !self.config.security_enabled)
   }
@@ -96,9 +99,10 @@ impl ZmtpEngine {
     &&& (self.version == Some(ZmtpVersion::V2) ==> !self.config.security_enabled)
     &&& (self.phase == ZmtpPhase::Greeting ==> self.version != Some(ZmtpVersion::V2))
     &&& (self.phase == ZmtpPhase::V2Identity ==> self.version == Some(ZmtpVersion::V2))
-    &&& (self.phase == ZmtpPhase::Security ==> self.version == Some(ZmtpVersion::V3) && allowed_kind(*self.config, self.security_mechanism.kind()))
+    &&& (self.phase == ZmtpPhase::Security ==> self.version == Some(ZmtpVersion::V3) && allowed_kind(*self.config, self.security_mechanism.kind())
+          && self.role_ok(self.security_mechanism.kind(), self.security_mechanism.role_server()))
     &&& (self.phase == ZmtpPhase::Ready ==> self.version == Some(ZmtpVersion::V3)
-          && (self.pending_framer matches Some(f) && (f.origin_complete() && allowed_kind(*self.config, f.origin_kind()))))
+          && (self.pending_framer matches Some(f) && (f.origin_complete() && allowed_kind(*self.config, f.origin_kind()) && self.role_ok(f.origin_kind(), f.origin_role_server()))))
     &&& (self.phase == ZmtpPhase::Data ==> self.auth_ok())
     &&& (self.version == Some(ZmtpVersion::V2) ==> pairing_checked(*self.config, self.v2_peer_socket_type))
   }
@@ -128,7 +132,7 @@ def handler_post(extra=(), hs_frame=True):
 HS_FRAME = ("C05:handshake_flags_frame", "final(self).revision_sent == old(self).revision_sent && final(self).version == old(self).version && final(self).is_server == old(self).is_server && final(self).v2_peer_socket_type == old(self).v2_peer_socket_type")
 
 PD_INV_FRAME = ("self.version == old(self).version && self.config == old(self).config && self.framer.origin_kind() == old(self).framer.origin_kind() "
-                "&& self.framer.origin_complete() == old(self).framer.origin_complete()")
+                "&& self.framer.origin_complete() == old(self).framer.origin_complete() && self.framer.origin_role_server() == old(self).framer.origin_role_server()")
 
 parts = [
   Raw("prelude/core.rs"),
@@ -193,7 +197,7 @@ parts = [
               ("C06:frame", "final(self).version == old(self).version && final(self).config == old(self).config && final(self).phase == old(self).phase && final(self).partial_batch == old(self).partial_batch "
                             "&& final(self).network_read_accumulator == old(self).network_read_accumulator && final(self).security_mechanism == old(self).security_mechanism")]),
   Fn(EN, "derive_pending_framer", impl=IMPL, emit_impl="impl ZmtpEngine",
-     ensures=[HS_FRAME, ("C06:framer_remembers_its_mechanism", "r matches Ok(f) ==> f.origin_kind() == old(self).security_mechanism.kind() && f.origin_complete() == old(self).security_mechanism.complete()"),
+     ensures=[HS_FRAME, ("C06:framer_remembers_its_mechanism", "r matches Ok(f) ==> f.origin_kind() == old(self).security_mechanism.kind() && f.origin_complete() == old(self).security_mechanism.complete() && f.origin_role_server() == old(self).security_mechanism.role_server()"),
               ("C06:frame", "final(self).version == old(self).version && final(self).config == old(self).config && final(self).phase == old(self).phase && final(self).partial_batch == old(self).partial_batch "
                             "&& final(self).network_read_accumulator == old(self).network_read_accumulator && final(self).framer == old(self).framer && final(self).pending_framer == old(self).pending_framer")]),
   Fn(EN, "emit_local_ready", impl=IMPL, emit_impl="impl ZmtpEngine",
@@ -217,7 +221,7 @@ parts = [
        # "a peer on which traffic keeps flowing is never disconnected by the heartbeat logic": any inbound frame is a sign of life,
        # so an outstanding PING stops counting towards HEARTBEAT_TIMEOUT (as in libzmq, which cancels its timeout timer on any input)
        ("C19:any_inbound_frame_counts_as_liveness", "final(self).new_frames(old(self).framer.read_log()).len() > 0 ==> !final(self).waiting_for_pong"),
-       ("C06:frame", "final(self).version == old(self).version && final(self).framer.origin_kind() == old(self).framer.origin_kind() && final(self).framer.origin_complete() == old(self).framer.origin_complete()"),
+       ("C06:frame", "final(self).version == old(self).version && final(self).framer.origin_kind() == old(self).framer.origin_kind() && final(self).framer.origin_complete() == old(self).framer.origin_complete() && final(self).framer.origin_role_server() == old(self).framer.origin_role_server()"),
        ("C07:phase_only_closes", "final(self).phase == old(self).phase || final(self).phase == ZmtpPhase::Closed"),
      ]),
      loops={0: {
@@ -356,7 +360,7 @@ parts = [
        ("C06:nothing_sent_before_data_phase", "old(self).phase != ZmtpPhase::Data ==> r.net_actions@.len() == 0 && r.app_actions@.len() == 0"),
        ("C06:never_reports_completion", "n_gated(r.app_actions@) == 0"),
        ("C06:frame", "final(self).phase == old(self).phase && final(self).version == old(self).version && final(self).config == old(self).config "
-                     "&& final(self).framer.origin_kind() == old(self).framer.origin_kind() && final(self).framer.origin_complete() == old(self).framer.origin_complete() "
+                     "&& final(self).framer.origin_kind() == old(self).framer.origin_kind() && final(self).framer.origin_complete() == old(self).framer.origin_complete() && final(self).framer.origin_role_server() == old(self).framer.origin_role_server() "
                      "&& final(self).partial_batch == old(self).partial_batch && final(self).pending_framer == old(self).pending_framer && final(self).security_mechanism == old(self).security_mechanism"),
      ],
      hints=[("bc", "@fn_start", 0, "", "broadcast use lemma_delivered_push, lemma_sends_push, lemma_n_gated_push;")]),
